@@ -26,6 +26,8 @@ type c17World struct {
 	keyset []string
 	kinds  []sim.Kind
 	idseed uint64
+	// overHTTP counts the collection calls that went through the HTTP route
+	overHTTP int
 }
 
 func newC17World(idseed uint64, kinds []sim.Kind) (*c17World, error) {
@@ -45,10 +47,35 @@ func newC17World(idseed uint64, kinds []sim.Kind) (*c17World, error) {
 	return cw, nil
 }
 
+// collectionCall creates or resets a collection: in worlds with an odd id seed through the HTTP route of the
+// REST port (PUT /api/v1/collections/<name>[/reset] -> grpc-gateway -> gRPC -> service), else by the service method.
+func (cw *c17World) collectionCall(name string, reset bool) error {
+	if cw.idseed%2 == 1 {
+		rr, err := cw.env.CollectionREST(name, reset, l1Deadline)
+		switch {
+		case err != nil:
+			return fmt.Errorf("HARNESS-ERROR: REST gateway: %v", err)
+		case rr.TimedOut:
+			return fmt.Errorf("the HTTP request for collection %q (reset=%v) was never answered", name, reset)
+		case rr.Status == 200:
+			cw.overHTTP++
+			return nil
+		case rr.Status == 404 || rr.Status == 405:
+			// the route does not match the name: the service method is called
+		default:
+			return fmt.Errorf("the HTTP request for collection %q (reset=%v) failed: HTTP %d %s", name, reset, rr.Status, rr.Body)
+		}
+	}
+	if reset {
+		return cw.env.ResetCollection(name)
+	}
+	return cw.env.CreateCollection(name)
+}
+
 func (cw *c17World) addCollection() (*l1World, error) {
 	// (names vary with the drawn id seed, see l1NameSuffix; one collection is a prefix of another's name)
 	name := fmt.Sprintf("c%d_%d", cw.seq, len(cw.cols)) + l1NameSuffix(cw.idseed/13+uint64(len(cw.cols)), true)
-	if err := cw.env.CreateCollection(name); err != nil {
+	if err := cw.collectionCall(name, false); err != nil {
 		return nil, err
 	}
 	w := &l1World{env: cw.env, col: name, labels: map[string]bool{}, waitBG: true, noConverge: true}
@@ -424,7 +451,7 @@ func TestC17(t *testing.T) {
 							oldDUIDs[bstr(bget(d, "_id"))] = true
 						}
 					}
-					if err := cw.env.ResetCollection(w.col); err != nil {
+					if err := cw.collectionCall(w.col, true); err != nil {
 						return fmt.Errorf("reset failed: %v", err)
 					}
 					cw.env.WaitBackground(3 * time.Second)
@@ -527,6 +554,9 @@ func TestC17(t *testing.T) {
 		}
 		if foreignAfter {
 			labels = append(labels, "foreign-request-or-reset-after")
+		}
+		if cw.overHTTP > 0 {
+			labels = append(labels, "collections-created-or-reset-over-http")
 		}
 		col.Case(sharedBoth && foreignAfter, canon.String(), labels, func() interface{} {
 			return map[string]interface{}{"kinds": kinds, "actions": canon.String()}
